@@ -54,6 +54,11 @@ type Context interface {
 	GetRunningElementFor(page Box, name, keyword string) Box
 }
 
+// inRunningElement is the context used for the content of a running
+// element being placed in a page margin: element() is not followed there,
+// as a running element may (directly or not) include itself.
+type inRunningElement struct{ Context }
+
 type URLResolver struct {
 	Fetch      utils.UrlFetcher
 	FetchImage ImageFetcher
@@ -710,6 +715,10 @@ outerLoop:
 				logger.WarningLogger.Printf("element(%s) is only allowed in page margins", strings.Join(value, " "))
 				continue
 			}
+			if _, nested := context.(inRunningElement); nested {
+				logger.WarningLogger.Printf("element(%s) is ignored inside a running element", strings.Join(value, " "))
+				continue
+			}
 			if len(value) == 1 {
 				value = append(value, "first")
 			}
@@ -729,7 +738,7 @@ outerLoop:
 					}
 					child.Box().Children = ContentToBoxes(
 						child.Box().Style, child, quoteDepth, counterValues,
-						resolver, targetCollector, cs, context, page)
+						resolver, targetCollector, cs, inRunningElement{context}, page)
 				}
 			}
 			contentBoxes = append(contentBoxes, newBox)
